@@ -7,6 +7,7 @@ import (
 	"time"
 
 	simplefixgo "github.com/b2broker/simplefix-go"
+	"github.com/b2broker/simplefix-go/session/messages"
 	"pgregory.net/rapid"
 
 	"verif/harness/evid"
@@ -25,6 +26,8 @@ type C08Case struct {
 	Silence bool     `json:"silence"`          // the peer falls silent once, long enough to be probed
 	N2      int      `json:"n2"`               // acceptor: after the first horizon the peer logs out and on again with this interval (0: no re-logon)
 	Relogon int      `json:"relogon"`          // index of the second Logon step
+	RefuseHB int     `json:"refuse_hb,omitempty"` // the application handler refuses the k-th unsolicited Heartbeat (0: none): that one is not transmitted; the timer must try again a period later
+	RemoveAt string  `json:"remove_at,omitempty"` // the application removes its own (accepting, all-types) logging handler right before this send step
 	Refuse  []string `json:"refuse,omitempty"` // application sends that an application outgoing handler (registered before the session's own) refuses: they are not transmitted, so they must not postpone the heartbeat
 }
 
@@ -175,26 +178,65 @@ func genC08(t *rapid.T) *C08Case {
 	}
 	c.Steps = tl.steps
 	c.MaxHB = n
+	if rapid.IntRange(0, 5).Draw(t, "refuseHB") == 0 {
+		c.RefuseHB = rapid.IntRange(1, 4).Draw(t, "refuseHBk")
+	}
+	if rapid.IntRange(0, 4).Draw(t, "removesHandler") == 0 {
+		var sends []string
+		for _, st := range c.Steps {
+			if st.Op == "send" {
+				sends = append(sends, st.ID)
+			}
+		}
+		if len(sends) > 0 {
+			c.RemoveAt = rapid.SampledFrom(sends).Draw(t, "removeAt")
+		}
+	}
 	return c
 }
 
 func checkC08(c *C08Case, rec *evid.Rec) (vs []pbt.Violation) {
 	var hooks *rig.Hooks
-	if len(c.Refuse) > 0 {
+	var hRef *simplefixgo.DefaultHandler
+	var logID int64
+	if len(c.Refuse) > 0 || c.RefuseHB > 0 || c.RemoveAt != "" {
 		refuse := map[string]bool{}
 		for _, id := range c.Refuse {
 			refuse[id] = true
 		}
+		hbSeen := 0
 		hooks = &rig.Hooks{BeforeRun: func(h *simplefixgo.DefaultHandler, log *rig.EventLog) {
+			hRef = h
+			if c.RemoveAt != "" {
+				// the application's own logging handler, removed later with the id it got
+				logID = h.HandleOutgoing(simplefixgo.AllMsgTypes, func(msg simplefixgo.SendingMessage) bool { return true })
+			}
 			h.HandleOutgoing(simplefixgo.AllMsgTypes, func(msg simplefixgo.SendingMessage) bool {
 				b, err := msg.ToBytes()
 				if err != nil {
 					return true
 				}
+				if typ, _ := ref.Lookup(b, rig.TagMsgType); typ == rig.THeartbeat {
+					if _, solicited := ref.Lookup(b, rig.TagTestReqID); !solicited {
+						hbSeen++
+						if hbSeen == c.RefuseHB {
+							log.Add(rig.Event{Kind: "heartbeat-refused"})
+							return false
+						}
+					}
+				}
 				id, _ := ref.Lookup(b, rig.TagMDReqID)
 				return !refuse[id]
 			})
 		}}
+		if c.RemoveAt != "" {
+			hooks.AppMessage = func(st *rig.Step) messages.Message {
+				if st.ID == c.RemoveAt && hRef != nil {
+					_ = hRef.RemoveOutgoingHandler(simplefixgo.AllMsgTypes, logID)
+				}
+				return rig.NewApp(st.ID)
+			}
+		}
 	}
 	tr := rig.RunDirect(outerT, c.Cfg, c.Steps, hooks, c.MaxHB)
 	if tr.Trouble != "" {
@@ -202,6 +244,12 @@ func checkC08(c *C08Case, rec *evid.Rec) (vs []pbt.Violation) {
 	}
 	if tr.RunPanic != "" {
 		return []pbt.Violation{pbt.V("inbound-panic", "handler.Run panicked: %s", tr.RunPanic)}
+	}
+	var refusedAt []time.Duration
+	for _, e := range tr.Log.Since(0) {
+		if e.Kind == "heartbeat-refused" {
+			refusedAt = append(refusedAt, e.T)
+		}
 	}
 	refusedSeen := 0
 	for i := range c.Steps {
@@ -220,7 +268,7 @@ func checkC08(c *C08Case, rec *evid.Rec) (vs []pbt.Violation) {
 	nCur := c.N
 	segment := func() {
 		// judge what has been collected so far with the interval in force
-		vs = append(vs, judgeC08(nCur, t0, outs, solicited, end, &nearDeadline, &idle)...)
+		vs = append(vs, judgeC08(nCur, t0, outs, solicited, end, &nearDeadline, &idle, refusedAt)...)
 	}
 	for i := range c.Steps {
 		res := tr.Steps[i]
@@ -284,6 +332,12 @@ func checkC08(c *C08Case, rec *evid.Rec) (vs []pbt.Violation) {
 	if refusedSeen > 0 {
 		rec.Hist("refused-application-sends")
 	}
+	if len(refusedAt) > 0 {
+		rec.Hist("refused-heartbeat")
+	}
+	if c.RemoveAt != "" {
+		rec.Hist("application-removes-a-handler")
+	}
 	rec.Hist(fmt.Sprintf("N<=%d", bucket(c.N)))
 	rec.Extra("outbound_messages_judged", int64(len(outs)))
 	if rec.WantSample() && nontrivial {
@@ -315,12 +369,23 @@ func TestC08(t *testing.T) {
 }
 
 // judgeC08 applies the two bounds of the property to one logged-on period.
-func judgeC08(n int, t0 time.Duration, outs []rig.Emitted, solicited map[int]bool, end time.Duration, nearDeadline, idle *bool) (vs []pbt.Violation) {
+func judgeC08(n int, t0 time.Duration, outs []rig.Emitted, solicited map[int]bool, end time.Duration, nearDeadline, idle *bool, refusedAt []time.Duration) (vs []pbt.Violation) {
 	if t0 < 0 {
 		return nil
 	}
 	N := time.Duration(n) * time.Second
 	bound := N + N/10 + time.Millisecond
+	// a Heartbeat the application's handler refused is not transmitted, and the
+	// timer loop starts a new period after every attempt (TakeTimeout begins with a
+	// refresh): one more period per refusal is what the application asked for
+	extra := func(from, to time.Duration) (d time.Duration) {
+		for _, at := range refusedAt {
+			if at > from && at <= to {
+				d += N + N/10 + time.Millisecond
+			}
+		}
+		return d
+	}
 	prev := t0
 	prevStrict := t0 // latest outbound instant strictly before the current message's (same-instant rule)
 	for k, o := range outs {
@@ -328,7 +393,7 @@ func judgeC08(n int, t0 time.Duration, outs []rig.Emitted, solicited map[int]boo
 			prevStrict = outs[k-1].At
 		}
 		gap := o.At - prev
-		if gap > bound {
+		if gap > bound+extra(prev, o.At) {
 			vs = append(vs, pbt.V("silent-too-long", "N=%ds: nothing was transmitted between %v and %v (%v > N+N/10)", n, prev, o.At, gap))
 			break
 		}
@@ -348,7 +413,7 @@ func judgeC08(n int, t0 time.Duration, outs []rig.Emitted, solicited map[int]boo
 		}
 		prev = o.At
 	}
-	if len(vs) == 0 && end-prev > bound {
+	if len(vs) == 0 && end-prev > bound+extra(prev, end) {
 		vs = append(vs, pbt.V("silent-too-long", "N=%ds: nothing was transmitted between %v and the end of the history at %v", n, prev, end))
 	}
 	return vs
